@@ -43,6 +43,19 @@ func C13(r *Run) *core.Report {
 		n6++
 	}
 	rep.MinCount("C13.L6", "premise obligations (a grow grows)", n6, 2)
+	// L7: chain walks end: each one moves to the link of the bucket it stands on (and stops at nil), restated from C11.L2
+	n7 := 0
+	for _, o := range C11(r).Obs {
+		if o.Trivial || o.Rule != "C11.L2" || !strings.Contains(o.Construct, "advances along its own link") {
+			continue
+		}
+		c := *o
+		c.Construct = "[" + o.Rule + "] " + o.Construct
+		c.Rule = "C13.L7"
+		rep.Obs = append(rep.Obs, &c)
+		n7++
+	}
+	rep.MinCount("C13.L7", "premise obligations (chain walks advance)", n7, 6)
 	return rep
 }
 
